@@ -232,6 +232,7 @@ func genTypes(outp string) {
 func oracleTypes(in, outp string) {
 	out := wire.Create(outp)
 	defer out.Close()
+	defer dumpStats(outp)
 	rows, err := evalTypeRows()
 	byURL := map[string]typeRow{}
 	for _, r := range rows {
@@ -244,6 +245,7 @@ func oracleTypes(in, outp string) {
 		}
 		url := wire.Dec(f[4])
 		r, ok := byURL[url]
+		stat("row."+wire.Dec(f[3]), "clause.wildcard-semantics-of-the-type", "clause.first-request-without-names")
 		verdict := "OK"
 		switch {
 		case err != nil || !ok:
@@ -337,13 +339,22 @@ func genTproc(seed uint64, n int, outp string) {
 				}
 				return "-"
 			}
+			isDebug := strings.HasPrefix(tc.url, v3.DebugType)
 			for i := 2 + r.Intn(14); i > 0; i-- {
+				// the generator of the row answers with nothing / fails / is delta-aware, as for the ten modelled types
+				if !isDebug && r.Chance(1, 5) {
+					genScriptLine(r, out, "T", delta, true)
+				}
 				switch k := r.Intn(10); {
 				case k < 7 && !delta:
 					out.Line("req", "T", wire.EncList(genNames(r, true)), nonce(), errTok())
 				case k < 7:
 					univ := append([]string{"*"}, nameUniverse...)
-					out.Line("dreq", "T", wire.EncList(wire.Subset(r, univ, 1, 3)), wire.EncList(wire.Subset(r, univ, 1, 6)), "-", nonce(), errTok())
+					init := "-"
+					if r.Chance(1, 6) {
+						init = wire.EncList(wire.Subset(r, nameUniverse, 1, 2)) // initial_resource_versions
+					}
+					out.Line("dreq", "T", wire.EncList(wire.Subset(r, univ, 1, 3)), wire.EncList(wire.Subset(r, univ, 1, 6)), init, nonce(), errTok())
 				case k < 9 && !delta:
 					out.Line(wire.Pick(r, []string{"push", "fpush", "apush"}))
 				case k < 9:
